@@ -4,6 +4,9 @@ tests build them) and the independent self-similar-flow oracle used by C03/C15.
 bag        pH = a T^4/3 - eps,           pL = psi a T^4/3
 template   pH = a+ T^mu/3 - eps,         pL = a- T^nu/3      mu = 1+1/cs2, nu = 1+1/cb2
 twostep    the polynomial two-step model of tests/test_Hydrodynamics.py
+poly       pH = a (T^4 + s2 Tc^2 T^2) - eps,   pL = a (psi T^4 + b2 Tc^2 T^2)      (s2, b2 != 0: sound speeds that depend
+           markedly on temperature in BOTH phases, 0.26..0.30 for s2 = -0.4 between 0.8 and 1.2 Tc; the two-step model's
+           dependence is too mild to tell conditions that coincide for a constant sound speed apart)
 """
 import math
 from dataclasses import dataclass
@@ -46,11 +49,17 @@ def make_eos(kind, Tn, **par):
                 self.a = par.get("scale", 1.0) * 3.0
                 self.psi = par["psi"]
                 self.eps = (1 - self.psi) * self.a / 3 * par["Tc"] ** 4
+            elif kind == "poly":
+                self.a, self.psi, self.s = par.get("scale", 1.0), par["psi"], par.get("Tc", 1.0)
+                self.s2, self.b2 = par["s2"] * self.s**2, par["b2"] * self.s**2
+                self.eps = par["eps"] * self.a * self.s**4
             elif kind == "twostep":
                 self.aL, self.aH, self.musq, self.s = par.get("abrok", 0.2), par.get("asym", 0.1), par.get("musq", 0.4), par.get("Tc", 1.0)
 
         # temperatures are rescaled by Tc for the two-step model (its critical temperature is 1)
         def pHighT(self, T):
+            if kind == "poly":
+                return self.a * (T**4 + self.s2 * T**2) - self.eps
             if kind == "template":
                 return self.ap * T**self.mu / 3 - self.eps
             if kind == "bag":
@@ -59,6 +68,8 @@ def make_eos(kind, Tn, **par):
             return self.s**4 * (t**4 + (self.aL - self.aH + self.aH * t**2 - self.musq) ** 2 - self.musq**2)
 
         def dpHighT(self, T):
+            if kind == "poly":
+                return self.a * (4 * T**3 + 2 * self.s2 * T)
             if kind == "template":
                 return self.mu * self.ap * T ** (self.mu - 1) / 3
             if kind == "bag":
@@ -67,6 +78,8 @@ def make_eos(kind, Tn, **par):
             return self.s**3 * (4 * t**3 + 4 * self.aH * t * (self.aL - self.aH + self.aH * t**2 - self.musq))
 
         def ddpHighT(self, T):
+            if kind == "poly":
+                return self.a * (12 * T**2 + 2 * self.s2)
             if kind == "template":
                 return self.mu * (self.mu - 1) * self.ap * T ** (self.mu - 2) / 3
             if kind == "bag":
@@ -75,6 +88,8 @@ def make_eos(kind, Tn, **par):
             return self.s**2 * (12 * t**2 + 8 * self.aH**2 * t**2 + 4 * self.aH * (self.aL - self.aH + self.aH * t**2 - self.musq))
 
         def pLowT(self, T):
+            if kind == "poly":
+                return self.a * (self.psi * T**4 + self.b2 * T**2)
             if kind == "template":
                 return self.am * T**self.nu / 3
             if kind == "bag":
@@ -83,6 +98,8 @@ def make_eos(kind, Tn, **par):
             return self.s**4 * (t**4 + (self.aL * t**2 - self.musq) ** 2 - self.musq**2)
 
         def dpLowT(self, T):
+            if kind == "poly":
+                return self.a * (4 * self.psi * T**3 + 2 * self.b2 * T)
             if kind == "template":
                 return self.nu * self.am * T ** (self.nu - 1) / 3
             if kind == "bag":
@@ -91,6 +108,8 @@ def make_eos(kind, Tn, **par):
             return self.s**3 * (4 * t**3 + 4 * self.aL * t * (self.aL * t**2 - self.musq))
 
         def ddpLowT(self, T):
+            if kind == "poly":
+                return self.a * (12 * self.psi * T**2 + 2 * self.b2)
             if kind == "template":
                 return self.nu * (self.nu - 1) * self.am * T ** (self.nu - 2) / 3
             if kind == "bag":
